@@ -103,7 +103,7 @@ def overlay(repo_copy):
             continue
         for (host, modname, _) in hosts:
             with open(os.path.join(src, host), "a") as fh:
-                fh.write('\n#[cfg(kani)]\n#[path = "vk/%s"]\nmod %s;\n' % (fname, modname))
+                fh.write('\n#[cfg(kani)]\n#[path = "vk/%s"]\npub(crate) mod %s;\n' % (fname, modname))
 
 
 def build(repo_copy, logdir):
